@@ -75,6 +75,28 @@ def strategy(tier: str):
     return _case()
 
 
+def enumerate_cases(tier: str, shard: int, nshards: int):
+    """A few pairs at scale (guards with per-table / per-document budgets must not leak from A into B)."""
+    from .c20 import F as FAMILIES
+
+    big = [("table_sparse_square", 250), ("table_sparse_square", 128), ("bq_nested", 60), ("list_nested", 900), ("brackets_nested", 300), ("refdefs_separated", 200), ("html_blocks", 200)]
+    small = [("table_sparse_square", 60), ("table_rows", 30), ("bq_lines", 5), ("list_flat", 5), ("link_flat", 10), ("refdefs_separated", 5)]
+    idx = 0
+    for an, ak in big:
+        for bn, bk in small:
+            for ci in (1, 0):
+                idx += 1
+                if idx % nshards != shard:
+                    continue
+                A = FAMILIES[an](ak)
+                B = FAMILIES[bn](bk)
+                A = A if A.endswith("\n") else A + "\n"
+                B = B if B.endswith("\n") else B + "\n"
+                if an == "table_sparse_square" and ak == 128:
+                    A = (A + "\n") * 4
+                yield {"A": A, "B": B, "cfg": FIXED_CFGS[ci], "scale": True}
+
+
 def norm(tokens, shift: int = 0):
     out = []
     for t in tokens:
